@@ -27,7 +27,7 @@ type c17Case struct {
 func init() {
 	Register(Meta{
 		ID: "C17", Level: "exploration", HangIsViolation: true,
-		Rule:        "deviation-bounded: 6 seed (profile, data) pairs; bound 1 = every single structured mutation of the profile YAML tree (delete/rename/duplicate each key, delete each list item, replace each node by each of 14 wrong-kind values, keys turned into bad paths/unknown prefixes, 12 whole-document specials) and of the data JSON tree (14 replacements at every JSON pointer, delete/rename each key, each key turned into each JSON-LD keyword, delete each item, 24 whole-document specials); bound 2 (thorough) = every pair (profile mutation i, data mutation j) for seed `plain` (500 x 559) and, for seed `lexical` (476 x 3426 = 1.6 M pairs, beyond the budget), the sub-lattice i+j = 0 mod 6 (every profile mutation meets a sixth of the data mutations and vice versa; stated as a cap, not as full bound-2 coverage); raw = every string of length <=2 (quick) / <=3 (thorough) over the YAML and JSON structural alphabets as profile and as data. Entry points Validate, ValidateWithConfiguration, CompileProfile, ValidateCompiled, ValidateCompiledWithConfiguration, with and without an event channel. Oracle: no panic, returns within the watchdog, exactly one of report/error; valid JSON-LD with no nodes (decided by calling json-gold directly) yields conforms:true. Non-trivial = mutant that is still well-formed YAML/JSON (reaches past the text parser); distinct by text.",
+		Rule:        "deviation-bounded: 6 seed (profile, data) pairs; bound 1 = every single structured mutation of the profile YAML tree (delete/rename/duplicate each key, delete each list item, replace each node by each of 14 wrong-kind values, keys turned into bad paths/unknown prefixes, 12 whole-document specials) and of the data JSON tree (14 replacements at every JSON pointer, delete/rename each key, each key turned into each JSON-LD keyword, delete each item, 24 whole-document specials); bound 2 (thorough) = every pair (profile mutation i, data mutation j) for seed `plain` (about 580 x 559) and, for seed `lexical` (about 550 x 3426 = 1.9 M pairs, beyond the budget), the sub-lattice i+j = 0 mod 8 (every profile mutation meets an eighth of the data mutations and vice versa; stated as a cap, not as full bound-2 coverage); raw = every string of length <=2 (quick) / <=3 (thorough) over the YAML and JSON structural alphabets as profile and as data. Entry points Validate, ValidateWithConfiguration, CompileProfile, ValidateCompiled, ValidateCompiledWithConfiguration, with and without an event channel. Oracle: no panic, returns within the watchdog, exactly one of report/error; valid JSON-LD with no nodes (decided by calling json-gold directly) yields conforms:true. Non-trivial = mutant that is still well-formed YAML/JSON (reaches past the text parser); distinct by text.",
 		Assumptions: []string{"'never blocks' is decided by a 90 s per-case watchdog (typical case < 50 ms) plus a goroutine dump: the call counts as blocked only if nothing is running and a goroutine has been parked for over a minute inside the repository's packages; it is re-run (alone, then with the cases of its shard that preceded it) before being reported, and a shard stops after 2 blocked calls"},
 	}, c17Gen, c17Run)
 }
@@ -120,7 +120,7 @@ func c17Gen(tier string, emit func(c17Case)) {
 			}
 			for i, p := range pm {
 				for j, d := range dm {
-					if (i+j)%6 != 0 && len(pm)*len(dm) > 400000 {
+					if (i+j)%8 != 0 && len(pm)*len(dm) > 400000 {
 						continue
 					}
 					emit(c17Case{Kind: "pair", Seed: s.Name, Profile: p.Text, Data: d.Text, Desc: p.Desc + " + " + d.Desc})
